@@ -37,19 +37,29 @@ BOUNDS = {'quick': dict(L=3, nR=200), 'thorough': dict(L=4, nR=30000)}
 
 NAMES = ['new', 'old', 'same', 'plain', 'zz']
 ROLES = ['x', 'y', 'z', 'n', 'o', 'p', 'q', 'm']
+ROLESETS = [[r] for r in ROLES] + [['n', 'p'], ['o', 'm'], ['p', 'q'], []]
 OPS = ['load', 'force', 'enforce', 'edit']
 CONTENTS = [{}, {'new': 'role:x'}, {'old': 'role:y'}, {'same': 'role:z', 'plain': 'role:x'}, {'old': 'rule:new'},
             {'extra': 'role:x', 'old': 'role:z', 'new': 'role:y'}]
 
 
-def make_defaults(policy, with_dep):
+NEW_SHAPES = ['role:n', 'role:n or role:q', 'role:n and role:p', 'not role:z', '(role:n or role:x) or role:q', 'role:n or (role:p and role:q)']
+SAME_SHAPES = ['role:n and role:p', 'role:n or role:p', 'role:p', '(role:n and role:p) or role:q']
+OLD_SHAPES = ['role:o', 'role:o or role:m', 'role:o and role:m', 'role:n']
+
+
+def make_defaults(policy, with_dep, dshape=0):
+    """Caller-owned defaults; `dshape` selects the shapes of the check strings (leaf / or / and / not at the top)."""
+    new_cs = NEW_SHAPES[dshape % len(NEW_SHAPES)]
+    same_cs = SAME_SHAPES[(dshape // 2) % len(SAME_SHAPES)]
+    old_cs = OLD_SHAPES[(dshape // 3) % len(OLD_SHAPES)]
     if with_dep:
-        dep = policy.DeprecatedRule('old', 'role:o', deprecated_reason='r', deprecated_since='s')
+        dep = policy.DeprecatedRule('old', old_cs, deprecated_reason='r', deprecated_since='s')
         dep2 = policy.DeprecatedRule('same', 'role:o or role:m', deprecated_reason='r', deprecated_since='s')
-        return [policy.RuleDefault('new', 'role:n', deprecated_rule=dep),
-                policy.RuleDefault('same', 'role:n and role:p', deprecated_rule=dep2, scope_types=['project']),
+        return [policy.RuleDefault('new', new_cs, deprecated_rule=dep),
+                policy.RuleDefault('same', same_cs, deprecated_rule=dep2, scope_types=['project']),
                 policy.RuleDefault('plain', 'role:p or role:q', description='d')]
-    return [policy.RuleDefault('new', 'role:n'), policy.RuleDefault('same', 'role:n and role:p'),
+    return [policy.RuleDefault('new', new_cs), policy.RuleDefault('same', same_cs),
             policy.RuleDefault('plain', 'role:p or role:q', description='d')]
 
 
@@ -77,11 +87,11 @@ def snap(ds):
 def decisions(enf):
     out = {}
     for n in NAMES:
-        for r in ROLES:
+        for rs in ROLESETS:
             try:
-                out[n + '/' + r] = bool(enf.enforce(n, {}, {'roles': [r], 'project_id': 'p'}))
+                out[n + '/' + '+'.join(rs)] = bool(enf.enforce(n, {}, {'roles': list(rs), 'project_id': 'p'}))
             except Exception as e:
-                out[n + '/' + r] = 'EXC:' + type(e).__name__
+                out[n + '/' + '+'.join(rs)] = 'EXC:' + type(e).__name__
     return out
 
 
@@ -91,7 +101,7 @@ def printed(enf):
 
 def run_history(ctx, case):
     from oslo_policy import policy
-    shared = make_defaults(policy, case['with_dep'])
+    shared = make_defaults(policy, case['with_dep'], case.get('dshape', 0))
     s0 = snap(shared)
     worlds = []
     try:
@@ -128,7 +138,7 @@ def run_history(ctx, case):
             for wi, ww in enumerate(worlds):
                 got = decisions(ww['enf'])
                 fresh = policy.Enforcer(ww['tree'].conf(policy_dirs=[], enforce_new_defaults=ww['flag']))
-                fresh.register_defaults(make_defaults(policy, case['with_dep']))
+                fresh.register_defaults(make_defaults(policy, case['with_dep'], case.get('dshape', 0)))
                 want = decisions(fresh)
                 ctx.count('steps_compared')
                 pg, pw = printed(ww['enf']), printed(fresh)
@@ -171,7 +181,7 @@ def run(ctx):
                     done = False
                     break
                 history = [[op, who, (idx + j) % 7] for j, (op, who) in enumerate(hist)]
-                case = dict(s='H', with_dep=with_dep, history=history,
+                case = dict(s='H', with_dep=with_dep, dshape=idx % 24, history=history,
                             enforcers=[dict(flag=False, initial=[None, 1, 2, 4][idx % 4]), dict(flag=True, initial=[3, None, 5][idx % 3])])
                 run_history(ctx, case)
                 if idx % 400 == 0:
@@ -186,7 +196,7 @@ def run(ctx):
         if ctx.expired():
             break
         k = rnd.randint(1, 3)
-        case = dict(s='R', with_dep=rnd.random() < 0.8,
+        case = dict(s='R', with_dep=rnd.random() < 0.8, dshape=rnd.randrange(24),
                     enforcers=[dict(flag=rnd.random() < 0.5, initial=rnd.choice([None, 0, 1, 2, 3, 4, 5])) for _ in range(k)],
                     history=[[rnd.choice(OPS), rnd.randrange(k), rnd.randrange(40)] for _ in range(rnd.randint(5, 30))])
         run_history(ctx, case)
